@@ -28,6 +28,7 @@ type OwnCtx struct {
 type Finding struct {
 	Sig    string
 	Detail string
+	Req    *Request
 }
 
 const DecoratorAnnotation = "metacontroller.k8s.io/decorator-controller"
@@ -65,7 +66,7 @@ func JudgeOwnership(ctx OwnCtx, reqs []*Request, counts map[string]int) []Findin
 		isRev := r.GVR == ctx.RevisionGVR
 		res := r.GVR.Resource
 		bad := func(kind, format string, a ...interface{}) {
-			out = append(out, Finding{Sig: kind + ":" + res, Detail: fmt.Sprintf(format, a...) + "\n  request: " + r.String() + fmt.Sprintf("\n  pre: %v\n  post: %v\n  body: %v", r.Pre, r.Post, r.Body)})
+			out = append(out, Finding{Req: r, Sig: kind + ":" + res, Detail: fmt.Sprintf(format, a...) + "\n  request: " + r.String() + fmt.Sprintf("\n  pre: %v\n  post: %v\n  body: %v", r.Pre, r.Post, r.Body)})
 		}
 		switch {
 		case r.Pre == nil && r.Post != nil: // create (POST or creating apply-patch)
@@ -130,7 +131,13 @@ func JudgeOwnership(ctx OwnCtx, reqs []*Request, counts map[string]int) []Findin
 				}
 				continue
 			}
-			bad("write-to-uncontrolled", "modified an object the parent (uid %s) does not control: controller=%v", ctx.ParentUID, ControllerOf(r.Pre))
+			how := r.Verb
+			if r.Verb == "patch" {
+				if _, isApply := r.Query["fieldManager"]; isApply {
+					how = "apply-patch"
+				}
+			}
+			bad("write-to-uncontrolled("+how+")", "modified an object the parent (uid %s) does not control: controller=%v", ctx.ParentUID, ControllerOf(r.Pre))
 		}
 	}
 	return out
